@@ -251,11 +251,31 @@ func workerTimeout(args []string) time.Duration {
 	return 30 * time.Minute
 }
 
+// procNCPU: the CPU count a worker process reports before its first run (while
+// the library's package-level variables are initialised): seeded per worker.
+func procNCPU(worker int) int {
+	return []int{4, 1, 2, 16}[((worker%4)+4)%4]
+}
+
+func workerOfArgs(args []string) int {
+	for i, a := range args {
+		if a == "-worker" && i+1 < len(args) {
+			n, _ := strconv.Atoi(args[i+1])
+			return n
+		}
+	}
+	return 0
+}
+
 func runWorker(bin string, args []string, gomaxprocs int, raceLog string) *workerOut {
+	return runWorkerCPU(bin, args, gomaxprocs, raceLog, procNCPU(workerOfArgs(args)))
+}
+
+func runWorkerCPU(bin string, args []string, gomaxprocs int, raceLog string, ncpu int) *workerOut {
 	ctx, cancel := context.WithTimeout(context.Background(), workerTimeout(args))
 	defer cancel()
 	c := exec.CommandContext(ctx, bin, args...)
-	env := goEnv()
+	env := append(goEnv(), fmt.Sprintf("VSIM_NCPU=%d", ncpu))
 	if gomaxprocs > 0 {
 		env = append(env, "GOMAXPROCS="+strconv.Itoa(gomaxprocs))
 	}
@@ -1009,8 +1029,9 @@ func minimiseAndVerify(b *build, prop string, vm violationMsg, seed uint64, race
 	os.WriteFile(raw, vm.File, 0o644)
 	final := filepath.Join(verifHome, "out", "replays", name)
 	minOut := filepath.Join(b.Dir, "min-"+name)
+	ncpu := procNCPU(vm.Worker)
 	c := exec.Command(bin, "min", "-in", raw, "-out", minOut, "-secs", "30")
-	c.Env = append(goEnv(), "GORACE=halt_on_error=0 atexit_sleep_ms=0 log_path=/dev/null")
+	c.Env = append(goEnv(), "GORACE=halt_on_error=0 atexit_sleep_ms=0 log_path=/dev/null", fmt.Sprintf("VSIM_NCPU=%d", ncpu))
 	out, _ := c.CombinedOutput()
 	src := raw
 	if _, err := os.Stat(minOut); err == nil {
@@ -1024,7 +1045,7 @@ func minimiseAndVerify(b *build, prop string, vm violationMsg, seed uint64, race
 			cold = 1
 		}
 		c2 := exec.Command(bin, "min", "-regen", fmt.Sprintf("%s,%s,%d,%d,%d,%d", prop, vm.V.Class, vm.BaseSeed, vm.Worker, vm.Run, cold), "-out", minOut, "-secs", "150")
-		c2.Env = append(goEnv(), "GORACE=halt_on_error=0 atexit_sleep_ms=0 log_path=/dev/null")
+		c2.Env = append(goEnv(), "GORACE=halt_on_error=0 atexit_sleep_ms=0 log_path=/dev/null", fmt.Sprintf("VSIM_NCPU=%d", ncpu))
 		out, _ = c2.CombinedOutput()
 		if _, err := os.Stat(minOut); err == nil {
 			src = minOut
@@ -1048,6 +1069,7 @@ func minimiseAndVerify(b *build, prop string, vm violationMsg, seed uint64, race
 	pf["repo_dirty"] = b.Dirty
 	pf["instrumented_src_sha256"] = b.Instr.SrcHash
 	pf["race_build"] = race
+	pf["proc_ncpu"] = ncpu
 	pf["minimiser"] = strings.TrimSpace(string(lastLineOf(out)))
 	// verify in a fresh process, capturing the race report text if any
 	raceLog := filepath.Join(b.Dir, "race-replay-"+name)
@@ -1070,7 +1092,7 @@ func minimiseAndVerify(b *build, prop string, vm violationMsg, seed uint64, race
 			data, _ = json.MarshalIndent(pf, "", " ")
 			os.WriteFile(tmp, data, 0o644)
 		}
-		o := runWorker(bin, []string{"exec", "-in", tmp, "-trace"}, 2, raceLog)
+		o := runWorkerCPU(bin, []string{"exec", "-in", tmp, "-trace"}, 2, raceLog, ncpu)
 		if o.stats != nil {
 			if vs, ok := o.stats["violations"].([]any); ok {
 				for _, v := range vs {
@@ -1137,6 +1159,7 @@ func cmdReplay(args []string) {
 		Class     string    `json:"class"`
 		Race      bool      `json:"race_build"`
 		Violation violation `json:"violation"`
+		ProcNCPU  int       `json:"proc_ncpu"`
 	}
 	if err := json.Unmarshal(data, &pf); err != nil {
 		die2("%s: %v", args[0], err)
@@ -1148,7 +1171,10 @@ func cmdReplay(args []string) {
 		bin = b.Worker
 	}
 	raceLog := filepath.Join(b.Dir, "race-replay")
-	o := runWorker(bin, []string{"exec", "-in", args[0], "-trace"}, 2, raceLog)
+	if pf.ProcNCPU == 0 {
+		pf.ProcNCPU = 4
+	}
+	o := runWorkerCPU(bin, []string{"exec", "-in", args[0], "-trace"}, 2, raceLog, pf.ProcNCPU)
 	if o.stats == nil {
 		die2("replay produced no result: %v %s", o.err, trunc(o.log, 2000))
 	}
